@@ -22,6 +22,7 @@ Print Assumptions C20_ess_uniform.
     the same mask; the trimmed weights are renormalised. *)
 Theorem C20_trim_contract :
   forall A (samples : list A) weights thr frac bins s wt k,
+  trim_index (normalise weights) thr frac (bins - 1) <> None ->
   trim_weights samples weights thr frac bins = Some (s, wt, k) ->
   let w := normalise weights in
   (k <= bins - 1)%nat
@@ -34,7 +35,19 @@ Theorem C20_trim_contract :
 Proof. exact @trim_weights_contract. Qed.
 Print Assumptions C20_trim_contract.
 
-(** the search cannot run below grid index 0 when the lowest threshold is the minimum weight *)
+(** the routine returns for EVERY threshold oracle, every fraction and every grid (the code stops at grid index 0 whatever the ratio
+    test says there), with samples and weights cut by one mask *)
+Theorem C20_trim_total : forall A (samples : list A) weights thr frac bins,
+  exists s wt k, trim_weights samples weights thr frac bins = Some (s, wt, k)
+    /\ (k <= bins - 1)%nat
+    /\ s = select (mask_at (normalise weights) (thr k)) samples
+    /\ wt = normalise (select (mask_at (normalise weights) (thr k)) (normalise weights))
+    /\ (trim_index (normalise weights) thr frac (bins - 1) = None -> k = 0%nat).
+Proof. exact @trim_weights_total. Qed.
+Print Assumptions C20_trim_total.
+
+(** ... and some grid index always meets the request when the lowest threshold is the minimum weight and the fraction is at most 1: the
+    hypothesis of the contract above holds, the stop at index 0 is never forced in exact arithmetic *)
 Theorem C20_trim_terminates :
   forall w thr frac i, nonnegl w -> sumQ w == 1 -> frac <= 1 -> (forall x, In x w -> thr 0%nat <= x) ->
   exists k, trim_index w thr frac i = Some k.
